@@ -28,6 +28,16 @@ def build_model(variant="base"):
         r.gene_reaction_rule = rule
         return r
 
+    if variant == "detour":
+        # a direct route (v1) and a detour of three steps: without v1 plain FBA still grows through the detour, whereas
+        # the minimal-adjustment methods stay close to the reference and shut growth down - the result of a deletion
+        # depends on the method, so a worker that silently falls back to FBA shows
+        D, E = Metabolite("D", compartment="c"), Metabolite("E", compartment="c")
+        m.add_reactions([rx("EX_A", {A: 1}, 0, 10), rx("v1", {A: -1, B: 1}, 0, 10, "g1"),
+                         rx("v2", {A: -1, D: 1}, 0, 10, "g2"), rx("v3", {D: -1, E: 1}, 0, 10, "g3"),
+                         rx("v4", {E: -1, B: 1}, 0, 10, "g3 or g5"), rx("tC", {B: -1}, 0, 10)])
+        m.objective = "tC"
+        return m
     rs = [rx("EX_A_e", {Ae: -1}, -10, 10), rx("tA", {Ae: -1, A: 1}, -10, 10, "g4"),
           rx("v1", {A: -1, B: 1}, 0, 10, "g1 and g2"), rx("v2", {B: -1, C: 1}, 0, 10, "g2 or g3"),
           rx("v3", {A: -1, C: 1}, 0, 4, "g5"), rx("tC", {C: -1, Ce: 1}, 0, 10), rx("EX_C_e", {Ce: -1}, 0, 10)]
@@ -82,6 +92,13 @@ def cases(tier):
          gl, False),
         ("single_reaction_deletion_moma", "base",
          lambda m, p, items: single_reaction_deletion(m, items, method="linear moma", processes=p), rl, False),
+        # a model on which the minimal-adjustment methods and FBA disagree about the knock-outs
+        ("single_gene_deletion_moma_detour", "detour",
+         lambda m, p, items: single_gene_deletion(m, items, method="linear moma", processes=p), ["g1", "g2", "g3", "g5"], False),
+        ("single_reaction_deletion_room_detour", "detour",
+         lambda m, p, items: single_reaction_deletion(m, items, method="linear room", processes=p), ["v1", "v2", "v4"], False),
+        ("double_gene_deletion_moma_detour", "detour",
+         lambda m, p, items: double_gene_deletion(m, items, ["g3", "g5"], method="linear moma", processes=p), ["g1", "g2"], False),
     ]
     return out
 
